@@ -16,7 +16,7 @@ All statements quantify over every document, path text, value and history.
 -/
 namespace Nima.C08
 
-open Nima Node EditM
+open Nima Nima.Node Nima.EditM Nima.EditFail
 
 /-! ## (a) a rejected edit leaves the document as it was -/
 
@@ -24,12 +24,12 @@ open Nima Node EditM
     the path (plain, nested, attrpath family, quoted, scoped, malformed) and the value. -/
 theorem set_fail_unchanged (d : Doc) (p : Text) (v : ValueArg) (e : Err) (d' : Doc)
     (hwf : WF d) (h : setValue p v d = (.error e, d')) : d.same d' :=
-  (setValue_error hwf.scratch h).1
+  (setValue_error (WF.scratch hwf) h).1
 
 /-- A rejected `rm` returns the document it was given, up to the allocation counter. -/
 theorem rm_fail_unchanged (d : Doc) (p : Text) (e : Err) (d' : Doc)
     (hwf : WF d) (h : removeValue p d = (.error e, d')) : d.same d' :=
-  (removeValue_error hwf.scratch h).1
+  (removeValue_error (WF.scratch hwf) h).1
 
 /-- Without a scope selector nothing at all is spent: the rejected `set` returns *exactly* its
     input, for every document (no well-formedness needed). -/
@@ -183,12 +183,12 @@ theorem cex_resolution_rm : ¬ rm_error_class_full := by
 theorem error_class_partial (d : Doc) (p : Text) (v : ValueArg) (e : Err) (d' : Doc)
     (hwf : WF d) (hres : d.noTarget ≠ some .resolution)
     (h : setValue p v d = (.error e, d')) : e = .key ∨ e = .value :=
-  (setValue_error hwf.scratch h).2 hwf.2 hres
+  (setValue_error (WF.scratch hwf) h).2 hwf.2 hres
 
 theorem rm_error_class_partial (d : Doc) (p : Text) (e : Err) (d' : Doc)
     (hwf : WF d) (hres : d.noTarget ≠ some .resolution)
     (h : removeValue p d = (.error e, d')) : e = .key ∨ e = .value :=
-  (removeValue_error hwf.scratch h).2 hwf.2 hres
+  (removeValue_error (WF.scratch hwf) h).2 hwf.2 hres
 
 /-- Total form: whatever the document's `noTarget`, an exception escaping `set`/`rm` is a
     `KeyError`, a `ValueError`, or the `ResolutionError` of target resolution — never one of the
@@ -221,7 +221,7 @@ theorem error_class_total (d : Doc) (op : Op) (e : Err) (d' : Doc) (hwf : WF d)
         exact Or.inr (Or.inl (splitScopeNpath_error p _ hs))
       · cases h; exact Or.inr (Or.inr ⟨rfl, hres⟩)
       · cases h; exact Or.inr (Or.inr ⟨rfl, hres⟩)
-  · rcases (Op.run_error hwf.scratch h).2 hwf.2 hres with h1 | h1
+  · rcases (Op.run_error (WF.scratch hwf) h).2 hwf.2 hres with h1 | h1
     · exact Or.inl h1
     · exact Or.inr (Or.inl h1)
 
@@ -237,7 +237,7 @@ theorem no_internal_error (d : Doc) (op : Op) (e : Err) (d' : Doc) (hwf : WF d)
     `noTarget` never changes. -/
 theorem wf_preserved (d : Doc) (op : Op) (r : Except Err Unit) (d' : Doc) (hwf : WF d)
     (h : op.run d = (r, d')) : WF d' ∧ d'.noTarget = d.noTarget :=
-  ⟨hwf.of_keeps (Op.run_keeps op d r d' h), (Op.run_keeps op d r d' h).1⟩
+  ⟨WF.of_keeps hwf (Op.run_keeps op d r d' h), (Op.run_keeps op d r d' h).1⟩
 
 theorem history_wf (d : Doc) (ops : List Op) (hwf : WF d) :
     ∀ r ∈ runOps ops d, WF r.2 ∧ r.2.noTarget = d.noTarget :=
